@@ -31,12 +31,24 @@ def unreported : Obs := ⟨some true, none⟩
 
 def lastFinal : List Msg → Option (Option Exc)
   | [] => none
-  | .final r :: rest => (match lastFinal rest with | some r' => some r' | none => some r)
+  | .final r _ :: rest => (match lastFinal rest with | some r' => some r' | none => some r)
   | _ :: rest => lastFinal rest
+
+/-- user state carried by the last final message of a process worker -/
+def lastFinalState : List Msg → Option Nat
+  | [] => none
+  | .final _ u :: rest => (match lastFinalState rest with | some u' => some u' | none => some u)
+  | _ :: rest => lastFinalState rest
+
+/-- remote: the user-state message that follows the result message -/
+def sockState : List Msg → Option Nat
+  | [] => none
+  | .userState v :: _ => some v
+  | _ :: rest => sockState rest
 
 def firstSock : List Msg → Option Msg
   | [] => none
-  | .final r :: _ => some (.final r)
+  | .final r u :: _ => some (.final r u)
   | .noneResult :: _ => some .noneResult
   | _ :: rest => firstSock rest
 
@@ -54,8 +66,18 @@ def observe (k : Kind) (st : St) : Obs :=
   | .remote =>
     match firstSock st.comms with
     | none => unreported                 -- connection closed before a result: (False, None)
-    | some (.final r) => decode r
+    | some (.final r _) => decode r
     | some _ => ⟨none, none⟩             -- the child sent `None` as its result: `_result` stays None
+
+/-- the parent's `user_state` after the worker's death (0 = still the initial value) -/
+def parentState (k : Kind) (st : St) : Nat :=
+  match k with
+  | .thread => st.ustate                       -- shared memory
+  | .process => (lastFinalState st.comms).getD 0
+  | .remote =>
+    match firstSock st.comms with
+    | some (.final _ _) => (sockState st.comms).getD 0
+    | _ => 0
 
 /-- the outcome a direct call of the target would give -/
 def own (t : Target) : Obs :=
